@@ -645,8 +645,8 @@ impl ProofPool {
     }
 }
 
-/// Verification hooks (off by default): a verification-call counter and a
-/// read-only copy of the pool's internal state for external invariant monitors.
+// Verification hooks (off by default): a verification-call counter and a
+// read-only copy of the pool's internal state for external invariant monitors.
 #[cfg(feature = "verif-hooks")]
 thread_local! {
     /// Per-thread count of admission verifications (monitors run many pools on many threads).
